@@ -425,8 +425,21 @@ def add_value_variants(g, gx):
         sp["storage"] = ["static"]
         sp["function"] = ["inline"]
         return sp
+    def spec_extern(m):
+        sp = spec_int(m)
+        sp["storage"] = ["extern"]
+        return sp
     g.nts["declaration-specifiers"].value_variants = [lambda gx, m: (spec_int(m), True, co(m)), lambda gx, m: (spec_typedef(m), True, co(m)),
-                                                      lambda gx, m: (spec_atomic(m), True, co(m)), lambda gx, m: (spec_two(m), True, co(m))]
+                                                      lambda gx, m: (spec_atomic(m), True, co(m)), lambda gx, m: (spec_two(m), True, co(m)),
+                                                      lambda gx, m: (spec_extern(m), True, co(m))]
+
+    def params(m):
+        def named(n):
+            return A.Decl(n, [], [], [], [], A.TypeDecl(n, [], None, A.IdentifierType(["int"], co(m)), co(m)), None, None, co(m))
+        unnamed = A.Typename(None, [], None, A.TypeDecl(None, [], None, A.IdentifierType(["int"], co(m)), co(m)), co(m))
+        return A.ParamList([unnamed, named(f"p{m.mid}a"), unnamed, named(f"p{m.mid}b"), A.EllipsisParam(co(m))], co(m))
+    for nt in ("parameter-type-list", "parameter-type-list-opt"):
+        g.nts[nt].value_variants = [g.nts[nt].opaque, lambda gx, m: params(m)]
     def spec_align_only(m):
         sp = new_spec()
         sp["alignment"] = [A.Alignas(A.Constant("int", "8", co(m)), co(m))]
